@@ -285,15 +285,6 @@ Definition check_C14 (pre : State) (o : Op) (c : Z) (post : State) : list Z :=
 Definition check_C17 (pre : State) (o : Op) (c : Z) (post : State) : list Z :=
   match o with OEndBlock => clause 1 (c =? R_OK) | _ => [] end.
 
-Definition check_C08 (pre : State) (o : Op) (c : Z) (post : State) : list Z :=
-  match o with
-  | OHookSlash v f =>
-    (* for every existing validator, with or without alliance stake *)
-    if (0 <? f) && (f <=? ONE) && kmem (svals pre) [v]
-    then clause 1 (c =? R_OK) ++ clause 2 (negb (c =? R_OK) || flag post) else []
-  | _ => []
-  end.
-
 (* ---------- C06 / C07 slashing ---------- *)
 Definition fee (s : State) (d : Z) : Z := bal s ACC_FEE d.
 
@@ -406,6 +397,22 @@ Definition check_C06 (pre : State) (o : Op) (c : Z) (post : State) : list Z :=
                    forallb (fun kv => match kget (delegations post) (fst kv) with
                                       | Some d' => d_shares d' =? d_shares (snd kv)
                                       | None => false end) (delegations pre))
+    else []
+  | _ => []
+  end.
+
+(* ---------- C08: the callback is total, and what it returns from has been applied ---------- *)
+Definition check_C08 (pre : State) (o : Op) (c : Z) (post : State) : list Z :=
+  match o with
+  | OHookSlash v f =>
+    (* for every existing validator, with or without alliance stake *)
+    if (0 <? f) && (f <=? ONE) && kmem (svals pre) [v]
+    then clause 1 (c =? R_OK) ++ clause 2 (negb (c =? R_OK) || flag post)
+         (* "having applied the slash to all of the validator's bonded positions, pending unbondings and
+            pending redelegations": the clauses of C06 and C07 hold of the transition (the merged-record
+            finding of C07, code 31, is C07's) *)
+         ++ clause 6 (match check_C06 pre o c post with [] => true | _ => false end)
+         ++ clause 7 (forallb (fun x => x =? 31) (check_C07 pre o c post))
     else []
   | _ => []
   end.
